@@ -269,15 +269,17 @@ def run_check(tier, seed):
                         elif cls == 'change' and e == 0 and not (r['op'] == 'write' and r['len'] == 0):
                             findings.append({'what': 'sealed export: size-changing request %s was not refused' % coq_req(r), 'input': inp,
                                              'sig': dict(sig_of(r), kind='not-refused')})
-                        if cls == 'within' or (cls == 'neutral' and r['op'] != 'setattr'):
+                        if r['op'] in ('open', 'create'):
+                            # keep the handle tables alike: the reference opens what the sealed export opened
+                            # (without O_TRUNC, which a sealed export has to refuse or ignore)
+                            if e == 0:
+                                ru = dict(r); ru['flags'] &= ~O_TRUNC; U.send(ru); evals += 1
+                        elif cls == 'within' or (cls == 'neutral' and r['op'] != 'setattr'):
                             U.reset_sizes(before)
-                            ru = dict(r)
-                            eu = U.send(ru); au = U.sizes(); evals += 1
+                            eu = U.send(dict(r)); au = U.sizes(); evals += 1
                             if cls == 'within' and (eu != e or au != after) and after == before:
                                 findings.append({'what': 'request within the size behaves differently on the sealed export: %s sealed errno %s sizes %s, unsealed errno %s sizes %s'
                                                  % (coq_req(r), e, after, eu, au), 'input': inp, 'sig': dict(sig_of(r), kind='differs-from-unsealed')})
-                        elif cls == 'change' and r['op'] in ('open', 'create'):
-                            ru = dict(r); ru['flags'] &= ~O_TRUNC; U.send(ru)          # keep the handle tables alike
                         nontriv.add((r['op'], cls, e, no_open, r.get('flags', r.get('wflags', r.get('mode', 0)))))
                         cases.append((r, e, after))
                     exprs.append('(hist_check tie_host (mk_cfg true %s) %d (init_state [%s]) [%s])' % (
